@@ -19,6 +19,7 @@ CONSTANTS Factors,     \* exponents r of the power-of-two re-expression factor 2
           Fams,        \* which families to generate: "dy", "int", "real"
           DTypes,      \* further dtypes of the data ("f4", "c16") for the rows that also take integers
           DataSets,    \* which of the fixed data sets (1..3) the operands hold
+          TempPairs,   \* <<base unit, target unit>> indices into K, degC, degF, R for the offset-unit family
           Fixes        \* proposed repairs (fixes/C07-*.patch) present in the tree: the transcription follows them
 
 F2 == {2, -4}
@@ -29,7 +30,9 @@ R1 == {1}
 R3 == {1, 2, 3}
 B1 == {<<3, -2>>}
 B2 == {<<3, -2>>, <<0, 1>>}
-FamsAll == {"dy", "int", "real", "reg"}
+FamsAll == {"dy", "int", "real", "reg", "temp"}
+TP2 == {<<0, 2>>, <<1, 3>>}
+TP7 == {<<0, 2>>, <<1, 3>>, <<0, 1>>, <<0, 3>>, <<1, 2>>, <<2, 0>>, <<3, 1>>}
 DT0 == {}
 DT2 == {"f4", "c16"}
 DS1 == {1}
@@ -87,7 +90,7 @@ RegMixed(n, a, b) == {rg \in RegAssign(n, a, b) : \E i \in 1..n : rg[i] = a}
 CaseU(row, sh, da, u, v, rg, p, rd, r, dt, real, ds) ==
   LET sig == ResSig(row.sig, sh)
       io == IF row.io.chk = "na" THEN row.io ELSE ResSig(row.io, sh)
-      c0 == [f |-> row.f, t |-> row.t, sh |-> sh, n |-> row.n, da |-> da, u |-> u, v |-> v, rg |-> rg, pat |-> p, rd |-> rd, r |-> r,
+      c0 == [f |-> row.f, t |-> row.t, sh |-> sh, n |-> row.n, da |-> da, u |-> u, v |-> v, rg |-> rg, ok |-> "-", pat |-> p, rd |-> rd, r |-> r,
              dt |-> dt, real |-> real, ds |-> ds, cls |-> row.cls, hcls |-> HCls(row.f), sig |-> sig, io |-> io,
              exact |-> row.ex, nocov |-> "nocov" \in row.fl, novals |-> "novals" \in row.fl, unord |-> "unordered" \in row.fl, od |-> PrimaryDeg(sig)] IN
   c0 @@ [tb |-> ImplRun(c0, u), tv |-> ImplRun(c0, v), mp |-> ModelFails(c0, u) \cup ModelFails(c0, v)]
@@ -112,7 +115,7 @@ Case(row, sh, da, p, rd, r, dt, real, kl, kt, ds) ==
       io == IF row.io.chk = "na" THEN row.io ELSE ResSig(row.io, sh)
       c0 == [f |-> row.f, t |-> row.t, sh |-> sh, n |-> row.n, da |-> da, u |-> u, v |-> v, pat |-> p, rd |-> rd, r |-> r,
              dt |-> dt, real |-> real, ds |-> ds, cls |-> row.cls, hcls |-> HCls(row.f), sig |-> sig, io |-> io,
-             rg |-> NoReg(da),
+             rg |-> NoReg(da), ok |-> "-",
              exact |-> row.ex, nocov |-> "nocov" \in row.fl, novals |-> "novals" \in row.fl, unord |-> "unordered" \in row.fl, od |-> PrimaryDeg(sig)] IN
   [c0 EXCEPT !.od = PrimaryDeg(sig)] @@ [tb |-> ImplRun(c0, u), tv |-> ImplRun(c0, v), mp |-> ModelFails(c0, u) \cup ModelFails(c0, v)]
 
@@ -121,6 +124,22 @@ Case(row, sh, da, p, rd, r, dt, real, kl, kt, ds) ==
 \* dimensionless with a scale, partial cancellation in three-operand cases
 DasOf(row) == row.das \cup {Recip(da) : da \in {x \in row.das : HasBoth(x)}} \cup {RecipT(da) : da \in {x \in row.das : HasBoth(x)}}
 
+\* kind of the out= target: a unyt_array in ANOTHER commensurable unit ("u"), a unyt_array already in the result's
+\* unit ("r"), a plain ndarray ("b"); "-" = the template has no out=
+OutKinds(row) == IF IsOutT(row.t) THEN {"u", "r", "b"} ELSE {"-"}
+\* ---- offset units: the temperature family K (0), degC (1), degF (2), R (3) for the functions that bring one operand
+\* into another's unit or merge/compare operands; TempPairs = <<unit of the base run, unit re-expressed into>>.
+\* Not demanded there: functions that are not covariant under an AFFINE change of scale by their mathematics
+\* (geometric spacing, weighted means with temperature weights, sums of readings)
+NotAffine == {"np.geomspace", "np.average", "np.sum", "nd.sum"}
+TempRow(row) == row.f \notin NotAffine /\ ~(row.f = "np.linspace" /\ row.t = "retstep") /\   \* the step is a difference, not a reading (C08)
+                (RegRow(row) \/ (row.f = "np.histogram" /\ row.t \in {"range", "o:q-"}))
+AllL(da) == \A i \in DOMAIN da : da[i] = "L"
+TempCase(row, sh, da, p, pr) ==
+  LET dt == [i \in DOMAIN da |-> "Th"]
+      u == [i \in DOMAIN da |-> <<"Th", pr[1]>>] IN
+  CaseU(row, sh, dt, u, VarUnits(dt, u, p, "Th", pr[2] - pr[1]), NoReg(da), p, "Th", pr[2] - pr[1], "f8", TRUE, 1)
+
 Next ==
   /\ c = <<>>
   /\ \E row \in Active : \E sh \in row.shs, da \in DasOf(row) : \E p \in Patterns(da), rd \in {"L", "T", "iL", "iT"} :
@@ -128,16 +147,18 @@ Next ==
        /\ PatOK(da, p, row.q, rd)
        /\ IF p = "all" THEN rd \in DimsIn(da) ELSE rd = da[PatIdx(p)]
        /\ \/ /\ "dy" \in Fams
-             /\ \E r \in Factors, b \in Bases, ds \in DataSets : c' = Case(row, sh, da, p, rd, r, "f8", FALSE, b[1], b[2], ds)
+             /\ \E r \in Factors, b \in Bases, ds \in DataSets : \E k \in OutKinds(row) : c' = [Case(row, sh, da, p, rd, r, "f8", FALSE, b[1], b[2], ds) EXCEPT !.ok = k]
           \/ /\ "int" \in Fams /\ "int" \in row.fl /\ p = "all"
-             /\ \E r \in IntFactors : c' = Case(row, sh, da, p, rd, r, "i8", FALSE, 0, -1, 1)
+             /\ \E r \in IntFactors : \E k \in OutKinds(row) : c' = [Case(row, sh, da, p, rd, r, "i8", FALSE, 0, -1, 1) EXCEPT !.ok = k]
           \/ /\ "int" \in Fams /\ "int" \in row.fl /\ p = "all"
-             /\ \E r \in Factors, dt \in DTypes : c' = Case(row, sh, da, p, rd, r, dt, FALSE, 3, -2, 1)
+             /\ \E r \in Factors, dt \in DTypes : \E k \in OutKinds(row) : c' = [Case(row, sh, da, p, rd, r, dt, FALSE, 3, -2, 1) EXCEPT !.ok = k]
           \/ /\ "real" \in Fams
-             /\ \E r \in RealIdx, ds \in DataSets : c' = Case(row, sh, da, p, rd, r, "f8", TRUE, 0, 0, ds)
+             /\ \E r \in RealIdx, ds \in DataSets : \E k \in OutKinds(row) : c' = [Case(row, sh, da, p, rd, r, "f8", TRUE, 0, 0, ds) EXCEPT !.ok = k]
+          \/ /\ "temp" \in Fams /\ TempRow(row) /\ AllL(da) /\ rd = "L"
+             /\ \E pr \in TempPairs : \E k \in OutKinds(row) : c' = [TempCase(row, sh, da, p, pr) EXCEPT !.ok = k]
           \/ /\ "reg" \in Fams /\ RegRow(row) /\ PlainDa(da) /\ p = "all" /\ rd = da[1]
-             /\ \/ \E rg \in RegAssign(row.n, 1, 2) : c' = RegCase(row, sh, da, rg)
-                \/ \E rg \in RegMixed(row.n, 4, 3) : c' = RegDCase(row, sh, da, rg)
+             /\ \/ \E rg \in RegAssign(row.n, 1, 2) : \E k \in OutKinds(row) : c' = [RegCase(row, sh, da, rg) EXCEPT !.ok = k]
+                \/ \E rg \in RegMixed(row.n, 4, 3) : \E k \in OutKinds(row) : c' = [RegDCase(row, sh, da, rg) EXCEPT !.ok = k]
 Spec == Init /\ [][Next]_vars
 
 Export == c # <<>> => PrintT(ToJson(c))
